@@ -222,6 +222,20 @@ func vWalFoRecord(seq uint64, count uint32, size int, salt int) []byte {
 	return b
 }
 
+// a panic of failoverWriter.Close (its own assertions) is recorded as an event; no
+// action of FailoverTrace matches it, so TLC rejects the run there.
+func vWalFoRecover(t *vWalFoTrace, done *atomic.Bool, ch chan error) {
+	if r := recover(); r != nil {
+		msg := strings.ReplaceAll(fmt.Sprint(r), `"`, "'")
+		if len(msg) > 200 {
+			msg = msg[:200]
+		}
+		t.logf(`{"op":"fpanic","where":"Close","msg":"%s"}`, strings.ReplaceAll(msg, "\n", " "))
+		done.Store(true)
+		ch <- errors.New("panic")
+	}
+}
+
 func vWalFoRun(t *vWalFoTrace, c vWalFoCase, rng *rand.Rand) (problem string) {
 	const wn = NumWAL(5)
 	memFS := vfs.NewCrashableMem()
@@ -375,6 +389,7 @@ func vWalFoRun(t *vWalFoTrace, c vWalFoCase, rng *rand.Rand) (problem string) {
 			}
 			closeStarted.Store(true)
 			go func() {
+				defer vWalFoRecover(t, &closeDone, closeCh)
 				_, err := ww.Close()
 				t.logf(`{"op":"fclosed","err":%v}`, err != nil)
 				closeDone.Store(true)
@@ -431,6 +446,7 @@ func vWalFoRun(t *vWalFoTrace, c vWalFoCase, rng *rand.Rand) (problem string) {
 		if !closeStarted.Load() {
 			closeStarted.Store(true)
 			go func() {
+				defer vWalFoRecover(t, &closeDone, closeCh)
 				_, err := ww.Close()
 				if !crashed {
 					t.logf(`{"op":"fclosed","err":%v}`, err != nil)
